@@ -18,7 +18,7 @@ for name in sorted(res):
     if len(summ) > 170:
         summ = summ[:167] + "..."
     rows.append("| %s | %s | %s | %s | %s | %s |" % (name, m["property"], summ.replace("|", "\\|"), c,
-                                                  "caught (exit %s)" % run.get("exit") if r.get("caught") else "**missed**", sigs.replace("|", "\\|")))
+                                                  ("caught (exit %s)" % run.get("exit") if run.get("exit") == 1 else "caught by %s" % ", ".join(k for k, v in r.get("runs", {}).items() if v.get("exit") == 1)) if r.get("caught") else ("not caught: " + ("non-default cargo feature" if "feature" in m.get("out_of_reach", "") else "adds new API" if "NEW public" in m.get("out_of_reach", "") else "judged not a violation" if "NOT to break" in m.get("out_of_reach", "") else "**missed**")), sigs.replace("|", "\\|")))
 table = "| change | property | what it does | demo confirmed | quick check | first signatures |\n|---|---|---|---|---|---|\n" + "\n".join(rows)
 p = os.path.join(ROOT, "DESIGN.md")
 s = open(p).read()
